@@ -109,7 +109,7 @@ func (fs *faultState) runPlan(plan map[int]int) (string, faultResult) {
 	res.ncalls = vos.Calls
 	res.log = append([]string(nil), vos.Log...)
 	res.recovered = strings.Contains(buf.String(), "upload recover")
-	if vos.Calls > callBudget {
+	if vos.Calls > callBudget || vos.Hung {
 		res.hang = true
 	}
 	vos.Off()
